@@ -1,0 +1,31 @@
+//! Verification hooks. Compiled only with `--cfg wirefilter_verif`; they add
+//! observation and determinism for the checks under /verif and change nothing
+//! when the cfg is off.
+use std::cell::Cell;
+
+thread_local! {
+    static ANCHOR_OVERRIDE: Cell<Option<usize>> = const { Cell::new(None) };
+}
+
+/// Forces the anchor position used by the SIMD `contains` searcher for filters
+/// compiled on this thread (`None` restores the random choice). Positions
+/// outside `1..needle_len` are ignored.
+pub fn set_anchor_override(position: Option<usize>) {
+    ANCHOR_OVERRIDE.with(|a| a.set(position));
+}
+
+pub(crate) fn anchor_override(needle_len: usize) -> Option<usize> {
+    ANCHOR_OVERRIDE
+        .with(|a| a.get())
+        .filter(|p| *p >= 1 && *p < needle_len)
+}
+
+/// Whether the SIMD (AVX2) search path is active in this process.
+pub fn simd_active() -> bool {
+    crate::ast::field_expr::verif_use_avx2()
+}
+
+/// Current `catch_panic` nesting level of the calling thread.
+pub fn panic_catcher_level() -> u64 {
+    crate::panic::verif_catcher_level()
+}
